@@ -229,6 +229,8 @@ def gen_cases(seed: int, deep: bool) -> List[Dict[str, Any]]:
             for s in ["", "a", "a" * (n - 1), "a" * n, "a" * (n + 1), "é"]:
                 add(t, ("whole",), ("S", ("s", [ord(c) for c in s])), en=False, tag="G")
             add(t, ("whole",), ("S", ("i", 1)), en=False, tag="G")
+            for s in VC.char_array_pool(n):      # ctypes char-array instances: refused by ctypes / by `value.encode`
+                add(t, ("whole",), ("S", s), en=False, tag="G")
     for t in arrs:
         _, cls, vk, n = t["fty"]
         for _ in range(6 if deep else 3):
